@@ -305,7 +305,8 @@ class TestNode(Runnable):
         """ID-s of workers that produced the shared results."""
         workers = set()
         for result in self.shared_results:
-            if result["status"] != "PASS":
+            # a test that passed with warnings (or slower than usual) has still provided its setup
+            if result["status"] not in ["PASS", "WARN"]:
                 continue
             worker_ids = [
                 w.id for s in TestSwarm.run_swarms.values() for w in s.workers
